@@ -253,7 +253,7 @@ def c07(tier, seed, replay=None):
     # fault: higher-order / nested derivatives computed by a function that first recovers from a failed inner differentiation
     # threads2small: a nested (second-order) differentiation in one thread while another thread enters and leaves traces
     fams = [("ho", 4, None), ("mix", 3, None), ("nest", 2, None), ("nestq", 3, 800) if q else ("nest", 3, None), ("fault", 2, None),
-            ("threads2small", 2, 250 if q else 2000)]
+            ("threads2small", 2, 250 if q else 2000), ("ckpt", 2, None)]      # ckpt: first and second derivatives through autograd.checkpoint
     muts = [("ho", 3, MUT_GEQ)]
     t0 = time.time()
     v1, cov = run_agm("C07", tier, seed, fams, muts,
